@@ -177,6 +177,8 @@ class ComponentSchema(Generic[TDataObject], BaseSchema):
         )
 
     def __eq__(self, other):
+        if not isinstance(other, type(self)):
+            return NotImplemented
         return self.__dict__ == other.__dict__
 
     if PYDANTIC_V2:
